@@ -205,7 +205,7 @@ func openEngineDisk(engine string, dir string, loc common.Location) (*SimDisk, e
 // directQiVerdicts drives core.ProcessQiTx - the validator's Qi path - with adversarial transactions over
 // the node's current UTXO set, through one batch of the zone engine (so pending tracking is the engine's),
 // and compares each verdict with the model's.
-func directQiVerdicts(n *Node, arg int, fail func(class, witness, detail string)) {
+func directQiVerdicts(n *Node, arg int, fail func(class, witness, detail string), only ...string) {
 	ph, err := n.PendingWork(n.Cfg.QuaiCoinbase)
 	if err != nil {
 		return
@@ -312,6 +312,10 @@ func directQiVerdicts(n *Node, arg int, fail func(class, witness, detail string)
 			}
 			return BuildQiTx([]Utxo{b, v}, []types.TxOut{freshOut([]Utxo{b, v}, arg, lower(b))}, nil, []*ecdsaKey{kb})
 		}, false},
+		{"output-to-in-zone-quai-address", func() (*types.Transaction, error) {
+			// a plain payment (no conversion data) whose payee is a Quai-ledger address of this zone: no UTXO may be created for it
+			return BuildQiTx([]Utxo{b}, []types.TxOut{{Denomination: lower(b), Address: quaiAccounts[arg%4].Addr.Bytes()}}, nil, nil)
+		}, false},
 		{"two-input-musig-honest", func() (*types.Transaction, error) {
 			return BuildQiTx([]Utxo{b, spendable[(arg+2)%len(spendable)]}, []types.TxOut{freshOut([]Utxo{b, spendable[(arg+2)%len(spendable)]}, arg, lower(b))}, nil, nil)
 		}, len(spendable) >= 3 && spendable[(arg+2)%len(spendable)].Key() != b.Key() && spendable[(arg+2)%len(spendable)].Key() != a.Key()},
@@ -336,6 +340,9 @@ func directQiVerdicts(n *Node, arg int, fail func(class, witness, detail string)
 	}
 	for _, c := range cases {
 		if c.name == "two-input-musig-honest" && !c.accept {
+			continue
+		}
+		if len(only) > 0 && !containsAny(c.name, only...) {
 			continue
 		}
 		tx, err := c.build()
